@@ -201,7 +201,27 @@ func invariant(v ssa.Value, l *mapLoop) bool {
 		return true
 	}
 	if in, ok := v.(ssa.Instruction); ok && in.Block() != nil {
-		return !l.Body[in.Block()] && in.Block() != l.Header
+		if !l.Body[in.Block()] && in.Block() != l.Header {
+			return true
+		}
+		// an address computed in the body from loop-invariant parts (&h.Events) is the same place every time
+		switch x := v.(type) {
+		case *ssa.FieldAddr:
+			return invariant(x.X, l)
+		case *ssa.IndexAddr:
+			return invariant(x.X, l) && invariant(x.Index, l)
+		case *ssa.UnOp:
+			// re-load of a local that lives in a slot (captured / address-taken) and is not assigned in the loop
+			if slot, ok := x.X.(*ssa.Alloc); ok && x.Op == token.MUL && invariant(slot, l) && slot.Referrers() != nil {
+				for _, rf := range *slot.Referrers() {
+					if st, ok := rf.(*ssa.Store); ok && st.Addr == ssa.Value(slot) && (l.Body[st.Block()] || st.Block() == l.Header) {
+						return false
+					}
+				}
+				return true
+			}
+		}
+		return false
 	}
 	return true // parameters, globals, free vars
 }
